@@ -22,7 +22,9 @@ import (
 func init() {
 	const expl = "(typed AST, a unit system with the kinds base-name / full-path): every string field of a struct of the repository that is used as a non-first argument of filepath.Join must hold a base name, every field handed directly to os.Open/OpenFile/Create/Remove/Rename/Stat/ReadFile/WriteFile (or index.NewReader) must hold a full path; every assignment to such a field (composite literals included) whose value has a known kind — filepath.Base, DirEntry/FileInfo.Name() are base names; filepath.Join, filepath.Abs and package functions that return such values (tools.MakeFilename) are full paths; locals and fields carry the kind of what they were assigned — has the required kind. A full path stored where a base name is expected makes the later Remove(Join(dir, name)) fail silently: the superseded snapshot (state, cache) file stays and a restart loads the stale one."
 	register("C08", "C08-f "+expl, func(p *Prog, r *Res) { rulePathKind(p, r, "C08-f path-kind-agreement", []string{"builder"}) })
-	register("C12", "C12-i "+expl, func(p *Prog, r *Res) { rulePathKind(p, r, "C12-i path-kind-agreement", []string{"manager", "converters", "builder"}) })
+	register("C12", "C12-i "+expl, func(p *Prog, r *Res) {
+		rulePathKind(p, r, "C12-i path-kind-agreement", []string{"manager", "converters", "builder"})
+	})
 }
 
 func rulePathKind(p *Prog, r *Res, rule string, pkgs []string) {
